@@ -271,6 +271,10 @@ def nav_selections(lst, names, sim):
 
 
 def alphabet(ab, nsel, thorough):
+    """The actions tried on one listing.  index: both ends, negative, just outside the range;
+    time/step: exact hits, a midpoint (tie), a point nearer the LOWER and a point nearer the UPPER
+    neighbour of an interval (so that a rule that always takes one side is seen), before the
+    first and after the last; history with the listing's selections."""
     n, T, S = ab.n, ab.times, ab.steps
     ops = [('first',), ('last',), ('next',), ('prev',)]
     idxs = [0, n - 1, -1, -n, n, -n - 1]
@@ -282,11 +286,14 @@ def alphabet(ab, nsel, thorough):
     ts = []
     js = sorted(set([0, n // 2, n - 1]))
     for j in js: ts.append(T[j])
-    for j in sorted(set([0, max(0, n - 2)])):
+    ivs = sorted(set([0, max(0, n - 2)]))
+    for j in ivs:
         if j + 1 < n:
+            d = T[j + 1] - T[j]
             mid = (T[j] + T[j + 1]) / 2
-            ts.append(mid)
-            if thorough: ts += [math.nextafter(mid, math.inf), T[j] + (T[j + 1] - T[j]) * 0.75]
+            if thorough or j == ivs[0]: ts.append(mid)
+            if thorough or j == ivs[-1]: ts += [T[j] + d * 0.25, T[j] + d * 0.75]
+            if thorough: ts += [math.nextafter(mid, math.inf), math.nextafter(mid, -math.inf)]
     ts.append(T[0] - 1.0 - abs(T[0]) * 0.5)
     ts.append(T[-1] * 2 + 1.0)
     seen = []
@@ -294,9 +301,14 @@ def alphabet(ab, nsel, thorough):
         if t not in seen and t == t and abs(t) != math.inf: seen.append(t)
     ops += [('time', t) for t in seen]
     ss = [int(S[j]) for j in js]
-    for j in sorted(set([0, max(0, n - 2)])):
-        if j + 1 < n: ss.append((int(S[j]) + int(S[j + 1])) // 2)
-        if j + 1 < n and thorough: ss.append((int(S[j]) + int(S[j + 1]) + 1) // 2)
+    for j in ivs:
+        if j + 1 < n:
+            a, b = int(S[j]), int(S[j + 1])
+            if thorough or j == ivs[0]: ss.append((a + b) // 2)
+            if thorough: ss.append((a + b + 1) // 2)
+            if thorough or j == ivs[-1]:
+                if b - a >= 3: ss += [a + 1, b - 1]          # nearer the lower / the upper neighbour
+                else: ss.append((a + b) // 2)
     ss += [int(S[0]) - 1, int(S[-1]) + 1]
     seen = []
     for s in ss:
@@ -306,50 +318,74 @@ def alphabet(ab, nsel, thorough):
     return ops
 
 
-def gen_sequences(ab, ops, rng, budget_s, c_open, c_op, thorough):
-    """Operation sequences, each run from a freshly opened listing: every sequence of length 1
-    and 2, then length 3 (and 4 in the thorough tier) in a seeded random order until the cost
-    model says the budget is used up; random sequences of length 30; and one long chained walk
-    that performs every ordered pair of actions from every index."""
-    seqs, kinds = [], []
-    spent = 0.0
+WORK_QUICK, WORK_THOROUGH = 220000, 1400000     # per-listing work allowance (units: KB read), see plan_counts
+UNIT_PER_MS = 35          # calibration of the work unit below: ~35 units per millisecond of one core
 
-    def cost(seq): return c_open + sum((c_open if o[0] == 'history' else c_op) for o in seq)
-    maxlen = 4 if thorough else 3
-    complete = {}
-    for L in range(1, maxlen + 1):
-        allL = list(itertools.product(range(len(ops)), repeat=L)) if len(ops) ** L <= 400000 else None
-        if allL is None:
-            allL = [tuple(rng.randrange(len(ops)) for _ in range(L)) for _ in range(20000)]
-        elif L >= 3: rng.shuffle(allL)
-        done = 0
-        for t in allL:
-            s = [ops[i] for i in t]
-            c = cost(s)
-            if spent + c > budget_s * 0.6: break
-            spent += c; seqs.append(s); kinds.append('len%d' % L); done += 1
-        complete[L] = (done, len(ops) ** L)
-        if done < len(allL): break
-    nrand = 40 if thorough else 4
-    for _ in range(nrand):
-        s = [ops[rng.randrange(len(ops))] for _ in range(30)]
-        c = cost(s)
-        if spent + c > budget_s * 0.85 and _ > 0: break
-        spent += c; seqs.append(s); kinds.append('random30')
-    # chained walk: from every index every ordered pair (continuing on the same object)
+
+def plan_counts(size, n, nops, thorough, work=None):
+    """How many sequences of each kind are run on ONE listing.  The counts are a function of the
+    file size in bytes, its number of result sets, the alphabet size and the tier ONLY (integer
+    arithmetic, no clock): the run is the same however loaded the machine is.  Work unit: one KB
+    read by the reader; opening a listing scans the whole file, an action reads one result set."""
+    kb = size // 1024 + 1
+    c_open = kb + 35
+    c_op = kb // max(1, n) + 12
+    Q = int(work) if work else (WORK_THOROUGH if thorough else WORK_QUICK)
+    A = nops
+    plan = {'len1': A}
+    plan['len2'] = min(A * A, max(A, (20 * Q // 100) // (c_open + 2 * c_op)))
+    plan['len3'] = min(A ** 3, (15 * Q // 100) // (c_open + 3 * c_op))
+    plan['len4'] = min(A ** 4, (15 * Q // 100) // (c_open + 4 * c_op)) if thorough else 0
+    plan['random30'] = min(40 if thorough else 4, max(1, (10 * Q // 100) // (c_open + 33 * c_op)))
+    # the chained walk: (index=i; a; b) on ONE object, for every index i, `pairs_per_index` ordered pairs
+    npairs = A * A
+    per = (55 * Q // 100 if not thorough else 40 * Q // 100) // (max(1, n) * (3 * c_op + c_open // 6 + 1))
+    plan['pairs_per_index'] = min(npairs, max(min(npairs, 2 * A), per))
+    return plan
+
+
+def gen_sequences_planned(ab, ops, rng, plan):
+    """The operation sequences of one listing, exactly as many as `plan` says.  Sequences of length
+    1..4 and the random ones start from a freshly opened listing; when fewer than all sequences of a
+    length are asked for they are drawn without repetition in a seeded random order.  The chained
+    walk runs on one object: for every index i, `index=i; a; b` for `pairs_per_index` ordered pairs
+    (a, b) in a seeded random order (all of them when the plan allows)."""
+    seqs, kinds, complete = [], [], {}
+    A = len(ops)
+    for L in (1, 2, 3, 4):
+        want = plan.get('len%d' % L, 0)
+        if not want: continue
+        total = A ** L
+        if want >= total:
+            chosen = list(itertools.product(range(A), repeat=L))
+        else:
+            codes = rng.sample(range(total), want)
+            chosen = []
+            for c in codes:
+                t = []
+                for _ in range(L): t.append(c % A); c //= A
+                chosen.append(tuple(t))
+        for t in chosen:
+            seqs.append([ops[i] for i in t]); kinds.append('len%d' % L)
+        complete[L] = (len(chosen), total)
+    for _ in range(plan.get('random30', 0)):
+        seqs.append([ops[rng.randrange(A)] for _ in range(30)]); kinds.append('random30')
+    pairs = [(a, b) for a in ops for b in ops]
     walk = []
-    nonhist = [o for o in ops if o[0] != 'history']
-    pairs = [(a, b) for a in ops for b in ops if not (a[0] == 'history' and b[0] == 'history')]
-    rng.shuffle(pairs)
-    wcost = c_open
     for i in range(ab.n):
-        for a, b in pairs:
-            c = 3 * c_op + (c_open if a[0] == 'history' else 0) + (c_open if b[0] == 'history' else 0)
-            if spent + wcost + c > budget_s and walk: break
-            wcost += c
+        rng.shuffle(pairs)
+        for a, b in pairs[:plan.get('pairs_per_index', 0)]:
             walk += [('index', i), a, b]
     if walk: seqs.append(walk); kinds.append('chained-pairs')
+    complete['pairs'] = (min(len(pairs), plan.get('pairs_per_index', 0)) * ab.n, len(pairs) * ab.n)
     return seqs, kinds, complete
+
+
+def gen_sequences(ab, ops, rng, budget_s, c_open, c_op, thorough):
+    """(kept for callers of the earlier interface) `budget_s` is converted to the work allowance of
+    plan_counts; c_open and c_op are ignored.  Nothing here looks at a clock."""
+    plan = plan_counts(getattr(ab, 'size', 200000), ab.n, len(ops), thorough, work=int(budget_s * 1000 * UNIT_PER_MS))
+    return gen_sequences_planned(ab, ops, rng, plan)
 
 
 def check_nearest(vals, v, sel, exact):
@@ -358,6 +394,23 @@ def check_nearest(vals, v, sel, exact):
     m = min(d)
     if exact: return d[sel] == m
     return d[sel] <= m * (1 + Fraction(1, 2 ** 50))
+
+
+def probe_positions(path, skip):
+    """[(i, exception name, message, traceback function names)] for every full result set at which
+    `index = i` raises on a freshly opened listing ([] normally)."""
+    import traceback
+    out = []
+    l = open_listing(path, skip)
+    n = l.num_fulltimes
+    l.close()
+    for i in range(n):
+        l = open_listing(path, skip)
+        try: l.index = i
+        except Exception as e:
+            out.append((i, type(e).__name__, str(e)[:120], [f.name for f in traceback.extract_tb(e.__traceback__)]))
+        finally: l.close()
+    return out
 
 
 def run_job(pl):
@@ -370,6 +423,17 @@ def run_job(pl):
     skip = pl.get('skip_tables')
     rng = random.Random(pl['seed'])
     res = {'label': label, 'inp': pl['inp'], 'failures': [], 'skipped': None}
+    bad_pos = probe_positions(path, skip)
+    if bad_pos:
+        # some result set cannot be positioned at even from a freshly opened listing: report, classified by
+        # where the exception comes from, and leave this listing out of the sequence sweep
+        for (i, ename, msg, frames) in bad_pos[:3]:
+            key = (KEY_NONUNIFORM % 'TOUGH2') if ('read_tables_TOUGH2' in frames and 'next_tablename' in frames) else 'set_index:raises'
+            inp = dict(pl['inp']); inp['ops'] = [['index', i]]
+            res['failures'].append({'key': key, 'input': inp, 'observed': 'index=%d on a freshly opened listing raises %s: %s (in %s)' % (i, ename, msg, '>'.join(frames[-3:])),
+                                    'required': 'every full result set can be positioned at'})
+        res['skipped'] = 'index=%d raises %s on a freshly opened listing' % (bad_pos[0][0], bad_pos[0][1])
+        return res
     ab = Abstract(path, skip)
     res.update({'sim': ab.sim, 'n': ab.n, 'tables': ab.names, 'family': ab.family,
                 'nonuniform': [(i, nm, un, tot) for (i, nm, un, tot) in ab.nonuniform][:20]})
@@ -392,12 +456,13 @@ def run_job(pl):
     l0.close()
     ops = alphabet(ab, len(sels), pl['thorough'])
     size = os.path.getsize(path)
-    c_open = 0.001 + size / 35e6
-    c_op = 0.0004 + size / 30e6 / max(1, ab.n)
+    plan = None
     if pl.get('sequences') is not None:
         seqs = [[tuple(o) for o in s] for s in pl['sequences']]; kinds = ['given'] * len(seqs); complete = {}
     else:
-        seqs, kinds, complete = gen_sequences(ab, ops, rng, pl['budget_s'], c_open, c_op, pl['thorough'])
+        plan = plan_counts(size, ab.n, len(ops), pl['thorough'], work=pl.get('work'))
+        seqs, kinds, complete = gen_sequences_planned(ab, ops, rng, plan)
+    res['plan'] = plan
     tvals = ab.times + [o[1] for s in seqs for o in s if o[0] == 'time']
     den = scale_for(tvals)
 
@@ -596,12 +661,12 @@ def call_worker(ctx, payload, timeout):
 # the check
 
 
-def plan_jobs(ctx, info, tmpdir, budget_s):
+def plan_jobs(ctx, info, tmpdir, work=None):
     jobs = []
     for rel, d in sorted(info.items()):
         if 'error' in d or d['n'] < 2: continue
         n = d['n']
-        ks = list(range(1, n + 1)) if ctx.thorough else sorted(set([1, 2, n - 1, n]))
+        ks = list(range(1, n + 1)) if ctx.thorough else sorted(set([1, 2, n]))
         for k in ks:
             if k < 1: continue
             inp = {'file': rel}
@@ -609,7 +674,7 @@ def plan_jobs(ctx, info, tmpdir, budget_s):
                 if d['offsets'] < n: continue
                 inp['truncate_to'] = k
             jobs.append({'inp': inp, 'label': '%s[%s]' % (rel, 'full' if k == n else k), 'expect_n': k, 'size': d['size'] * k / n})
-        if ctx.thorough or rel.endswith('TOUGH2/4/case4.out') or rel.endswith('TOUGHplus/1/case1.dat'):
+        if ctx.thorough or rel.endswith(('TOUGH2/4/case4.out', 'TOUGHplus/1/case1.dat', 'TOUGH2/11/case11.listing')):
             # the skip_tables variants the upstream tests open
             skips = [['connection']] if not ctx.thorough else [['connection'], ['element'], ['generation'], ['primary']]
             for sk in skips:
@@ -619,7 +684,7 @@ def plan_jobs(ctx, info, tmpdir, budget_s):
         j['path'] = materialise(ctx.repo, j['inp'], tmpdir)
         j['skip_tables'] = j['inp'].get('skip_tables')
         j['seed'] = ctx.rng.randrange(1 << 30)
-        j['budget_s'] = budget_s
+        j['work'] = work
         j['thorough'] = ctx.thorough
         j['tmpdir'] = tmpdir
     return jobs
@@ -632,7 +697,7 @@ def run_jobs(ctx, jobs, timeout):
         try: return j, call_worker(ctx, j, timeout), None
         except subprocess.TimeoutExpired: return j, None, 'timeout'
         except Exception as e: return j, None, repr(e)[-1500:]
-    with ThreadPoolExecutor(max_workers=vf.NPROC) as ex:
+    with ThreadPoolExecutor(max_workers=min(8, vf.NPROC)) as ex:
         return list(ex.map(one, jobs))
 
 
@@ -647,10 +712,12 @@ def correspond_and_collect(ctx, exe, results, timeout):
             ctx.proof_failures.append({'kind': 'harness', 'name': 'impl-runner:' + j['label'], 'detail': err})
             ctx.log('IMPLEMENTATION RUNNER FAILED on', j['label'], err[-400:])
             continue
-        if r.get('skipped'):
-            ctx.extra.setdefault('skipped', []).append('%s: %s' % (j['label'], r['skipped'])); continue
         for f in r['failures']:
-            ctx.failure('fresh-at-index' if f['key'].startswith('nav:') else 'next-prev-nearest', f['key'], f['input'], f['observed'], f['required'])
+            ctx.failure('fresh-at-index' if f['key'].startswith(('nav:', 'read_tables:', 'set_index:raises')) else 'next-prev-nearest', f['key'], f['input'], f['observed'], f['required'])
+        if r.get('skipped'):
+            ctx.extra.setdefault('skipped', []).append('%s: %s' % (j['label'], r['skipped']))
+            if r['failures']: ctx.oracle_cases('fresh-at-index', len(r['failures']))
+            continue
         for p in r.get('perturbed') or []:
             if p.get('differs'):
                 ctx.failure('perturbed-nonuniform', p['key'], p['input'], p['observed'], p['required'])
@@ -658,7 +725,7 @@ def correspond_and_collect(ctx, exe, results, timeout):
                 ctx.extra.setdefault('notes', []).append('%s: %s' % (j['label'], p['observed']))
         lines.append(r['model_line']); keep.append((j, r))
     if exe and lines:
-        outs = vf.run_driver(exe, lines, shards=min(vf.NPROC, len(lines)))
+        outs = vf.run_driver(exe, lines, shards=min(8, vf.NPROC, len(lines)))
     else:
         outs = [None] * len(lines)
     tot_ops = tot_seq = 0
@@ -670,7 +737,7 @@ def correspond_and_collect(ctx, exe, results, timeout):
         for k, v in r['kinds'].items(): kinds[k] = kinds.get(k, 0) + v
         for k, v in r['opkinds'].items(): opk[k] = opk.get(k, 0) + v
         for k, v in r['complete'].items():
-            c = complete.setdefault('len' + k, [0, 0]); c[0] += v[0]; c[1] += v[1]
+            c = complete.setdefault('chained-pairs' if k == 'pairs' else 'len' + k, [0, 0]); c[0] += v[0]; c[1] += v[1]
         (nonuniform if r['nonuniform'] else uniform).append(j['label'])
         mtoks = r['model_line'].split('\t')[3:]
         for si, il in enumerate(r['impl_lines']):
@@ -698,6 +765,10 @@ def correspond_and_collect(ctx, exe, results, timeout):
                                  ml[k] if k < len(ml) else '(none)', il[k] if k < len(il) else '(none)')
     ctx.corr_cases('nav-model-vs-t2listing', tot_ops, listings=len(keep), sequences=tot_seq, sequence_kinds=kinds, op_kinds=opk,
                    enumerated_of_all={k: '%d/%d' % tuple(v) for k, v in complete.items()})
+    ctx.extra['input_distribution'] = {'listings': len(keep), 'sequences': tot_seq, 'actions': tot_ops, 'sequence_kinds': kinds, 'action_kinds': opk,
+                                       'enumerated_of_all': {k: '%d/%d' % tuple(v) for k, v in complete.items()},
+                                       'result_sets_per_listing': {str(n): sum(1 for _, r in keep if r['n'] == n) for n in sorted(set(r['n'] for _, r in keep))},
+                                       'plan_examples': [{'listing': j['label'], 'bytes': int(j['size']), 'result_sets': r['n'], 'alphabet': r['alphabet'], 'plan': r.get('plan')} for j, r in keep[:4]]}
     ctx.oracle_cases('fresh-at-index', tot_ops, listings=len(keep))
     ctx.oracle_cases('next-prev-nearest', sum(opk.get(k, 0) for k in ('next', 'prev', 'time', 'step', 'index', 'first', 'last')))
     ctx.oracle_cases('perturbed-nonuniform', len(nonuniform))
@@ -708,11 +779,13 @@ def correspond_and_collect(ctx, exe, results, timeout):
 
 
 def run(ctx):
-    ctx.rule = ('listings: every shipped file under tests/listing with >= 2 full result sets, truncated copies (quick: 1, 2, N-1 sets; thorough: 1..N) and '
-                'skip_tables variants; per listing an alphabet of ~20-30 actions {first,last,next,prev, index in {0,1,N/2,N-1,-1,-N,N,-N-1}, '
-                'time exact/midpoint/before first/after last, step likewise, history(2 selections)}; sequences from a freshly opened listing: all of length 1 and 2, '
-                'length 3 (thorough: 4) in seeded random order up to a per-listing cost budget, random sequences of length 30, and one chained walk doing every ordered pair '
-                'of actions from every index; a case is one (listing, sequence prefix) observation, distinct by listing, position and observed state')
+    ctx.rule = ('listings: every shipped file under tests/listing with >= 2 full result sets, truncated copies (quick: 1 and 2 result sets; thorough: 1..N) and '
+                'skip_tables variants; per listing an alphabet of ~25-30 actions {first,last,next,prev, index in {0,1,N/2,N-1,-1,-N,N,-N-1}, '
+                'time: exact hits, a midpoint (tie), a point nearer the lower and one nearer the upper neighbour, before first, after last; step likewise; history(2 selections)}; '
+                'sequences from a freshly opened listing: all of length 1, N2/N3 (thorough also N4) sequences of length 2/3/4 drawn without repetition, random sequences of length 30; '
+                'one chained walk on a single object doing index=i; a; b for every index i and P ordered pairs (a, b); N2, N3, N4, P are computed by plan_counts from '
+                'file size, number of result sets and alphabet size only (no clock; reported under enumerated_of_all); '
+                'a case is one (listing, sequence prefix) observation, distinct by listing, position and observed state')
     ctx.trusted += ['Coq 8.16.1 kernel (coqc); vm_compute only on closed terms inside proofs',
                     'hand model coq/C07/ListingNav.v of t2listing navigation (validated on this run by the correspondence, observation by observation)',
                     'abstraction of a file to (time, step, assigned cells per table) per result set, extracted through the reader itself (table parsing is C05)',
@@ -730,10 +803,9 @@ def run(ctx):
         info = call_worker(ctx, {'fn': 'info_job', 'files': files}, 600)
         ctx.extra['files'] = {'shipped': len(files), 'with_2_or_more_times': sum(1 for d in info.values() if d.get('n', 0) >= 2),
                               'unreadable': {k: v['error'] for k, v in info.items() if 'error' in v}}
-        budget = 60.0 if ctx.thorough else 12.0
-        timeout = 3000 if ctx.thorough else 300
-        jobs = plan_jobs(ctx, info, tmpdir, budget)
-        ctx.log('%d listings (files, truncated copies, skip variants); budget %.0f s each' % (len(jobs), budget))
+        timeout = 3600 if ctx.thorough else 900          # guard against a hang only; the work is bounded by counts
+        jobs = plan_jobs(ctx, info, tmpdir)
+        ctx.log('%d listings (files, truncated copies, skip variants); sequence counts per listing from plan_counts (file size, result sets, alphabet; no clock)' % len(jobs))
         for j in jobs: j['want_ops'] = True
         results = run_jobs(ctx, jobs, timeout)
         keep = correspond_and_collect(ctx, exe, results, timeout)
@@ -742,10 +814,10 @@ def run(ctx):
                         'first_sequence': (r.get('seq_ops') or [[]])[0], 'observations': r['impl_lines'][0][:200]})
 
         def deep(broken):
-            # search for a concrete failing input with a larger budget on every listing
-            for j in jobs: j['budget_s'] = budget * 4; j['seed'] += 1
-            res2 = run_jobs(ctx, jobs, timeout * 4)
-            correspond_and_collect(ctx, None, res2, timeout * 4)
+            # search for a concrete failing input: other seeds, twice the work allowance on every listing
+            for j in jobs: j['work'] = 2 * (WORK_THOROUGH if ctx.thorough else WORK_QUICK); j['seed'] += 1
+            res2 = run_jobs(ctx, jobs, timeout * 2)
+            correspond_and_collect(ctx, None, res2, timeout * 2)
         return ctx.finish(deep_search=deep)
     finally:
         shutil.rmtree(tmpdir, ignore_errors=True)
@@ -765,7 +837,7 @@ def replay(ctx, data):
             print('replay:', r['text'])
             return r['differs']
         pl = {'fn': 'run_job', 'path': path, 'label': 'replay', 'inp': {k: v for k, v in inp.items() if k != 'ops'}, 'skip_tables': inp.get('skip_tables'),
-              'seed': 0, 'thorough': False, 'budget_s': 1, 'tmpdir': tmpdir, 'sequences': [inp.get('ops') or []], 'probe_nonuniform': False}
+              'seed': 0, 'thorough': False, 'work': 1, 'tmpdir': tmpdir, 'sequences': [inp.get('ops') or []], 'probe_nonuniform': False}
         try: r = call_worker(ctx, pl, 300)
         except subprocess.TimeoutExpired:
             print('replay: did not finish within 300 s'); return True
